@@ -11,7 +11,7 @@ let rec print_val buf (v : val0) =
     List.iteri (fun i x -> if i > 0 then Buffer.add_char buf ' '; print_val buf x) l;
     Buffer.add_char buf ')'
 
-let parse (s : string) : val0 =
+let parse s : val0 =
   let n = String.length s in
   let pos = ref 0 in
   let rec skip () = if !pos < n && s.[!pos] = ' ' then (incr pos; skip ()) in
